@@ -5,7 +5,7 @@ g_removed - every event taken off the queue front, in order; g_ndiscarded - how 
 were thrown away unprocessed.  Invariant  accepted == removed ++ queue  (FIFO, nothing lost
 or duplicated inside the queue); lossless = nothing is discarded while the machine is running.
 """
-from pyvc.sorts import BOOL, INT, STR, ListSort, SetSort, OPAQUE
+from pyvc.sorts import BOOL, INT, STR, ListSort, SetSort, OPAQUE, MapSort
 from specs.xsm import Node, Trans, Ev
 
 BI = "xstate_statemachine.base_interpreter:BaseInterpreter."
@@ -166,7 +166,7 @@ def register(w):
                                           ("queue-append-only", "ghost:" + APP_E), ("status-moves-along-allowed-edges", "status_reach(old(self.status), self.status)"),
                                           ("configuration-holds-states", ANN_E)])
 
-    @w.contract(SI + "_enter_states", props=["C01", "C03"])
+    @w.contract(SI + "_enter_states", props=["C01", "C03", "C08", "C09"])
     def _(c):
         c.no_runtime = True
         enter_clauses(c)
@@ -175,12 +175,20 @@ def register(w):
         c.ghost_param("hb", INT, default="height(root) + 1")
         c.req("ghost:hb >= 0 and forall[int](lambda i: implies(0 <= i and i < len(states_to_enter), height(states_to_enter[i]) < hb))")
         c.decreases = "hb"
+        # C08/C09: every state this call enters itself gets its after-timers armed and its services started - on every branch
+        # of the per-state loop (the early `continue` of the explicit-child case included)
+        c.ghost("scheduled", MapSort(Node, BOOL))
+        c.after("self._schedule_state_tasks(state)", "scheduled = store(scheduled, state, True)")
+        c.label_props = {"every-entered-state-has-its-tasks-scheduled": ["C08", "C09", "C01"]}
+        c.ens("forall[int](lambda i: implies(0 <= i and i < len(states_to_enter), final_scheduled[states_to_enter[i]]))",
+              label="ghost:every-entered-state-has-its-tasks-scheduled")
         c.before("self._enter_states([initial_child], event)", "ghostarg_hb = height(state)")
         c.before("self._enter_states(regions, event)", "ghostarg_hb = height(state)")
         c.loop(0, inv=[
             f"forall[Node](lambda n: implies(n in old({A}), n in {A}))",
             f"forall[int](lambda j: implies(0 <= j and j < _i, states_to_enter[j] in {A}))",
             E3, APP_E, "status_reach(old(self.status), self.status)", ANN_E,
+            "forall[int](lambda j: implies(0 <= j and j < _i, scheduled[states_to_enter[j]]))",
         ])
 
     @w.contract(BI + "_enter_states", props=["C01", "C03"])
